@@ -93,7 +93,8 @@ func runBuiltin(c BiCase) (ev map[string]any) {
 		return
 	}
 	switch c.F {
-	case "fn:count", "fn:sum", "fn:min", "fn:max", "fn:avg", "fn:collect_distinct":
+	case "fn:count", "fn:sum", "fn:min", "fn:max", "fn:avg", "fn:collect_distinct",
+		"fn:time:max", "fn:time:min", "fn:duration:max", "fn:duration:min", "fn:duration:sum":
 		v := ast.Variable{Symbol: "V"}
 		var rows []ast.ConstSubstList
 		for _, x := range c.A {
